@@ -146,14 +146,70 @@ def correspond(ctx):
     return dis + soc_cases(ctx) + env_statistics(ctx)
 
 
+def _fmt(inst, trace, msg):
+    return {"instance": inst.name, "trace": [list(l) for l in trace], "monitor": msg, "letter_format": FMT}
+
+
 def search(ctx, disagreements, proof_info):
+    """Failing-input search with the model-independent monitors.  Order: (1) disagreement traces of the exhaustive
+    small instances (short, small t) replayed and extended with letters of the instance's alphabet, then shrunk;
+    (2) monitor alarms of the random runs, reduced to the shortest suffix window that still fires; (3) SoC
+    scenarios; (4) the generic search over all instances."""
+    import time
+    from explore import shrink
+    all_jobs = getattr(ctx, "jobs", None) or jobs(ctx.tier)
+    deadline = time.time() + (60 if ctx.tier == "quick" else 400)
+    mach = [d for d in disagreements if not isinstance(d, dict)]
+    seen_jobs = set()
+    for d in mach:
+        j = getattr(d, "job", None)
+        if j is None or j in seen_jobs or all_jobs[j].mode != "A" or time.time() > deadline:
+            continue
+        seen_jobs.add(j)
+        inst = all_jobs[j].make()
+        if not hasattr(inst, "make_monitor"):
+            continue
+        traces = [dd.trace for dd in mach if getattr(dd, "job", None) == j]
+        for tr in traces:
+            r = replay_with_monitor(inst, tr)
+            if r:
+                cut = shrink(inst, tr[:r[0] + 1])
+                return _fmt(inst, cut, replay_with_monitor(inst, cut)[1])
+        t = getattr(inst, "t", None) or 3
+        for k in range(150):
+            base = traces[k % len(traces)]
+            ext = [ctx.rng.choice(inst.alphabet) for _ in range(ctx.rng.randint(1, 3 * t + 8))]
+            r = replay_with_monitor(inst, list(base) + ext)
+            if r:
+                cut = shrink(inst, (list(base) + ext)[:r[0] + 1])
+                return _fmt(inst, cut, replay_with_monitor(inst, cut)[1])
+            if time.time() > deadline:
+                break
+    for d in mach:
+        if getattr(d, "kind", "").startswith("monitor:") and getattr(d, "job", None) is not None:
+            inst = all_jobs[d.job].make()
+            tr = list(d.trace)
+            best = tr
+            w = 4
+            while w < len(tr):
+                cand = tr[len(tr) - w:]
+                r = replay_with_monitor(inst, cand)
+                if r:
+                    best = cand[:r[0] + 1]
+                    break
+                w *= 2
+            if len(best) <= 200:
+                best = shrink(inst, best)
+            r = replay_with_monitor(inst, best)
+            return _fmt(inst, best, r[1] if r else d.kind[8:])
     for d in disagreements:
         if isinstance(d, dict) and d.get("kind") == "soc-scenario":
             return {"instance": d["instance"], "scenario": {k: d[k] for k in ("std", "t", "seed", "nops")},
                     "monitor": "; ".join(d["problems"]),
                     "letter_format": "replay: c11lib.soc_scenario(std, 'shared', t, random.Random(seed), nops)"}
-    dis = [d for d in disagreements if not isinstance(d, dict)]
-    return generic_search(ctx, dis, getattr(ctx, "jobs", None) or jobs(ctx.tier), FMT)
+        if isinstance(d, dict) and d.get("kind") == "monitor":
+            return {"instance": d["instance"], "monitor": d["monitor"], "letter_format": "c11lib.measure_env"}
+    return generic_search(ctx, mach, all_jobs, FMT)
 
 
 def probes(ctx):
